@@ -1,4 +1,4 @@
-import AmVerif.Gen.Tables
+import AmVerif.Gen.TabFacts
 import AmVerif.Model.Source
 /-!
 # C11 — directory assets list exactly the matching ids of a directory / subtree
